@@ -495,6 +495,9 @@ func (c *Client) validVirtualChannelProposal(prop *VirtualChannelProposalMsg, ou
 
 	// Check index map entries.
 	indexMap := prop.IndexMaps[ourIdx]
+	if len(indexMap) != numPeers {
+		return errors.Errorf("expected index map of length %d, got %d", numPeers, len(indexMap))
+	}
 	for i, p := range indexMap {
 		if int(p) >= numPeers {
 			return errors.Errorf("invalid index map entry %d: %d", i, p)
